@@ -351,6 +351,13 @@ section Vp
 variable {K : Type}
 variable [Add K] [Sub K] [Mul K] [Zero K] [LT K] [DecidableLT K] [LE K] [DecidableLE K]
 
+/-- stable insertion sort (structural, so that the kernel can evaluate the model on concrete witnesses) -/
+def insertBy {α : Type} (le : α → α → Bool) (x : α) : List α → List α
+  | [] => [x]
+  | y :: ys => if le y x then y :: insertBy le x ys else x :: y :: ys
+
+def sortBy {α : Type} (le : α → α → Bool) (l : List α) : List α := l.foldl (fun acc x => insertBy le x acc) []
+
 /-- `tsne::euclidean_distance` AS WRITTEN: `dd += (a_d - b_d)*(a_d - b_d)` and **no square root** -/
 def vpDistance (a b : List K) : K := (List.zipWith (fun x y => (x - y) * (x - y)) a b).foldl (· + ·) 0
 
@@ -408,7 +415,7 @@ def vpSearch (items : Nat → List K) (target : List K) (k : Nat) : VpNode K →
 
 /-- public `search(target, k, &results, &distances)`: the heap drained and reversed — nearest first -/
 def vpSearchTop (items : Nat → List K) (root : VpNode K) (target : List K) (k : Nat) : List (Nat × K) :=
-  (vpSearch items target k root ⟨none, []⟩).heap.mergeSort (fun a b => decide (a.2 ≤ b.2))
+  sortBy (fun a b => decide (a.2 ≤ b.2)) (vpSearch items target k root ⟨none, []⟩).heap
 
 /-- `buildFromPoints(lower, upper)` on the item segment, positions relative to `lower = base`.
     `pick cnt` models `(int)(uniform_random() * (upper-lower-1))`; `std::nth_element` is modelled by one admissible
@@ -429,7 +436,7 @@ def vpBuild (pick : Nat → Nat → Nat) : Nat → Nat → Nat → List (Nat × 
         | j + 1 => match rest[j]? with
           | none => (x, rest)
           | some y => (y, rest.set j x)
-      let sorted := tail.mergeSort (fun a b => decide (vpDistance vp.2 a.2 ≤ vpDistance vp.2 b.2))
+      let sorted := sortBy (fun a b => decide (vpDistance vp.2 a.2 ≤ vpDistance vp.2 b.2)) tail
       let medRel := cnt / 2 - 1      -- position of `median` inside the tail
       let thr := match sorted[medRel]? with
         | some m => vpDistance vp.2 m.2
